@@ -8,6 +8,7 @@ import (
 	"context"
 	"encoding/xml"
 	"fmt"
+	"io"
 	"sync"
 
 	"mellium.im/xmlstream"
@@ -50,7 +51,9 @@ func (h *Handler) remove(id string) {
 	h.trackedM.Lock()
 	defer h.trackedM.Unlock()
 	if iter, ok := h.tracked[id]; ok {
-		close(iter.msgC)
+		// Only signal that the query is done: a message may be on its way to the
+		// iterator at this very moment, so the message channel is never closed.
+		close(iter.done)
 		delete(h.tracked, id)
 	}
 }
@@ -89,24 +92,69 @@ func (h *Handler) HandleMessage(msg stanza.Message, r xmlstream.TokenReadEncoder
 			break
 		}
 	}
+	// Do not hold the lock while the message is handed over: the iterator may
+	// be closed (which needs the lock) instead of being advanced.
 	h.trackedM.Lock()
-	defer h.trackedM.Unlock()
 	iter, ok := h.tracked[queryID]
+	h.trackedM.Unlock()
 	if !ok {
-		if h.inner != nil {
-			return h.inner.HandleMessage(msg, struct {
-				xml.TokenReader
-				xmlstream.Encoder
-			}{
-				TokenReader: xmlstream.MultiReader(xmlstream.Token(tok), xmlstream.InnerElement(r)),
-				Encoder:     r,
-			})
-		}
-		return nil
+		return h.fallback(msg, tok, r, r)
 	}
 
-	iter.msgC <- xmlstream.MultiReader(xmlstream.Token(msgTok), xmlstream.Token(tok), r)
-	return nil
+	// The reader is only valid until this method returns, but the iterator is
+	// advanced from another goroutine: hand over a copy of the message.
+	buf := []xml.Token{xml.CopyToken(msgTok), xml.CopyToken(tok)}
+	for {
+		t, err := r.Token()
+		if t != nil {
+			buf = append(buf, xml.CopyToken(t))
+		}
+		if err == io.EOF {
+			break
+		}
+		if err != nil {
+			return err
+		}
+	}
+
+	select {
+	case iter.msgC <- &tokenReader{toks: buf}:
+		return nil
+	case <-iter.done:
+	case <-iter.ctx.Done():
+	}
+	// Nobody is iterating over the query anymore.
+	return h.fallback(msg, tok, &tokenReader{toks: buf[2:]}, r)
+}
+
+// fallback passes a message that is not (or no longer) tracked to the inner
+// handler.
+// The reader r must be positioned just after the start token of the payload.
+func (h *Handler) fallback(msg stanza.Message, start xml.Token, r xml.TokenReader, e xmlstream.Encoder) error {
+	if h.inner == nil {
+		return nil
+	}
+	return h.inner.HandleMessage(msg, struct {
+		xml.TokenReader
+		xmlstream.Encoder
+	}{
+		TokenReader: xmlstream.MultiReader(xmlstream.Token(start), xmlstream.InnerElement(r)),
+		Encoder:     e,
+	})
+}
+
+// tokenReader is a reader over a copy of a message.
+type tokenReader struct {
+	toks []xml.Token
+}
+
+func (r *tokenReader) Token() (xml.Token, error) {
+	if len(r.toks) == 0 {
+		return nil, io.EOF
+	}
+	tok := r.toks[0]
+	r.toks = r.toks[1:]
+	return tok, nil
 }
 
 // Fetch requests messages from the archive and returns an iterator over the
@@ -135,6 +183,8 @@ func (h *Handler) FetchIQ(ctx context.Context, filter Query, iq stanza.IQ, s *xm
 	msgC := make(chan xml.TokenReader)
 	iter := &Iter{
 		msgC: msgC,
+		done: make(chan struct{}),
+		ctx:  ctx,
 		h:    h,
 		id:   filter.ID,
 	}
